@@ -447,6 +447,7 @@ static void explore(FrameBase& f, const Gram& g);
 
 static void explore_strings(FrameBase& f, const Gram& g, const ref::LR1& L, Ctx& cx, const TableDump& d, bool lr1_clean, bool table_equal) {
     // precondition: reference automaton L is free of R/R and accept conflicts; S/R cells resolved per documentation
+    if (cfg.has_input && cfg.one_input.find_first_of(" \n?") != std::string::npos && !f.custom_lexer) return;   // such inputs belong to explore_rich
     const bool err_gram = g.has_error_symbol();
     const bool reduced_gram = ref::is_reduced(g);
     ref::RefTable rt{L};
